@@ -134,3 +134,9 @@ Proof. vm_compute. reflexivity. Qed.
 Example ex_monitor_rejects_early_close_return :
   mon_run mon0 [(TLoop, ThreadStart); (TLoop, CloseReturn)] = None.
 Proof. reflexivity. Qed.
+
+(* why C40_model_satisfies_checker is stated for accepted traces: on an input that
+   is not a run of the model the checker is (rightly) not satisfied *)
+Example ex_checker_needs_model_run :
+  check_case [(TSel, WakerRecv 0, noview)] (run_case [(TSel, WakerRecv 0, noview)]) = false.
+Proof. vm_compute. reflexivity. Qed.
